@@ -402,7 +402,21 @@ def ntot(spec):
     return sum(sp["M"] * ((2 * sp["l"] + 1) if sp["sph"] else ncart(sp["l"])) for sp in spec)
 
 
+def structured_T(rng, nrow, ncol):
+    """a (signed) permutation / selection matrix (entries 0, +1, -1; rows distinct unit vectors) or the identity: the
+    matrices for which an implementation of the lincomb step could take a short cut"""
+    nrow = min(nrow, ncol)
+    r = rng.random()
+    cols = list(range(nrow)) if r < 0.2 else rng.sample(range(ncol), nrow)
+    T = [[0] * ncol for _ in range(nrow)]
+    for i, c in enumerate(cols):
+        T[i][c] = 1 if r < 0.45 else rng.choice([-1, 1])
+    return T
+
+
 def draw_T(rng, ncol):
+    if rng.random() < 0.25:
+        return structured_T(rng, max(1, ncol + rng.choice([-2, -1, 0, 0])), ncol)
     nrow = max(1, ncol + rng.choice([-2, -1, 1, 2]))
     return [[rng.randint(-2, 3) for _ in range(ncol)] for _ in range(nrow)]
 
@@ -781,6 +795,8 @@ def gen_prm(rng, fn):
 
 
 def gen_T_rat(rng, ncol):
+    if rng.random() < 0.25:
+        return [[str(x) for x in row] for row in structured_T(rng, max(1, ncol + rng.choice([-2, -1, 0, 0])), ncol)]
     nrow = max(1, ncol + rng.choice([-2, -1, 1]))
     return [[str(Fraction(rng.randint(-8, 8), 4)) for _ in range(ncol)] for _ in range(nrow)]
 
